@@ -71,6 +71,8 @@ def gen_inputs(rng, n, symm, special):
         Ps = [{} for _ in range(max(k, 2))]
     elif special == 4:    # empty inputs in first / middle positions
         Ps = [{}, gen.gen_pixels(rng, n, symm, None), {}, gen.gen_pixels(rng, n, symm, None)][: max(k, 2)]
+    elif special == 5:    # explicitly stored zero values (kept, and summed like any other record)
+        Ps = [gen.gen_pixels(rng, n, symm, None, zeros=0.4) for _ in range(max(k, 2))]
     else:
         Ps = [gen.gen_pixels(rng, n, symm, None) for _ in range(k)]
     return Ps[:5]
